@@ -109,6 +109,8 @@ EXC_POOL = {
 }
 BASE_POOL = {
     "SystemExit": lambda: SystemExit(3),
+    "SystemExit0": lambda: SystemExit(0),   # sys.exit(0) inside a payload is still the end of that payload, not a request honoured silently
+    "SystemExitNone": lambda: SystemExit(),
     "GeneratorExit": lambda: GeneratorExit(),
     "CustomBase": lambda: CustomBase("base"),
 }
@@ -467,8 +469,15 @@ class World:
                     return None
                 w.ev(pid, "finish")
                 return w.finish(spec)
-        payload.__name__ = payload.__qualname__ = "payload_%d_%s" % (pid, flavour)
         shape = spec.get("callable")
+        if shape == "sync-raise" and flavour != "threading" and spec.get("end", ["return"])[0] == "raise":
+            # a plain callable standing in for a coroutine function (Callable[[], Awaitable]) that fails before it hands back
+            # its awaitable
+            def payload(*args, **kwargs):  # noqa: F811
+                start(args, kwargs)
+                w.ev(pid, "finish")
+                return w.finish(spec)
+        payload.__name__ = payload.__qualname__ = "payload_%d_%s" % (pid, flavour)
         if shape == "no-module":
             payload.__module__ = None  # as for functions made by exec() with bare globals, or methods of builtin containers
         elif shape == "partial":
